@@ -318,13 +318,28 @@ func runMultiGet(kc string, orig string, nshards int, arr []marrival, perm []int
 	for i := range shards {
 		shards[i] = int64(i)
 	}
-	ch, calls := oxia.VerifMultiShardGet(orig, shards, kcOption(kc))
+	opts := []oxia.GetOption{kcOption(kc)}
+	for _, a := range arr {
+		if !a.isErr && a.sec != nil {
+			// the answers come from a secondary index: the search key is in the index key space, the answers'
+			// Key is the primary key
+			opts = append(opts, oxia.UseIndex("idx"))
+			break
+		}
+	}
+	ch, calls := oxia.VerifMultiShardGet(orig, shards, opts...)
 	if len(calls) != nshards {
 		return fmt.Sprintf("BAD-CALLS-%d", len(calls))
 	}
-	var obs []string
+	var steps []string
 	rch := ch // set to nil once the close has been observed
+	dead := false
 	for i, a := range arr {
+		if dead {
+			steps = append(steps, "-")
+			continue
+		}
+		var obs []string
 		var resp *proto.GetResponse
 		var err error
 		if a.isErr {
@@ -378,13 +393,18 @@ func runMultiGet(kc string, orig string, nshards int, arr []marrival, perm []int
 		}
 		if p {
 			obs = append(obs, "PANIC")
-			break
+			dead = true
+		}
+		if len(obs) == 0 {
+			steps = append(steps, "-")
+		} else {
+			steps = append(steps, strings.Join(obs, ","))
 		}
 	}
-	if len(obs) == 0 {
+	if len(steps) == 0 {
 		return "-"
 	}
-	return strings.Join(obs, ",")
+	return strings.Join(steps, ";")
 }
 
 func lexLess(a, b marrival) int {
@@ -426,17 +446,34 @@ func checkMultiGetSpec(o *hxOut, kc string, orig string, nshards int, arr []marr
 			nsec++
 		}
 	}
-	if nsec != 0 && nsec != len(arr) {
+	if nsec != 0 && nsec != len(oks) {
 		uniform = false
+	}
+	// observations per arrival
+	var obs []string
+	firstSend := -1
+	if result != "-" {
+		for i, st := range strings.Split(result, ";") {
+			for _, x := range splitList(st) {
+				if strings.HasPrefix(x, "send:") && firstSend < 0 {
+					firstSend = i
+				}
+				obs = append(obs, x)
+			}
+		}
+	}
+	// a reply while some shard has not answered and no error has occurred
+	if firstSend >= 0 && firstSend < nshards-1 && (firstErr < 0 || firstErr > firstSend) {
+		o.Violation("mget:answered-before-all-shards-replied", line+" => "+result)
+		return
 	}
 	complete := firstErr >= 0 || len(arr) >= nshards
 	if !complete {
-		if result != "-" {
-			o.Violation("mget:answer-before-all-shards-answered", line+" => "+result)
+		if len(obs) != 0 {
+			o.Violation("mget:answered-before-all-shards-replied", line+" => "+result)
 		}
 		return
 	}
-	obs := strings.Split(result, ",")
 	if len(obs) != 2 || !strings.HasPrefix(obs[0], "send:") || obs[1] != "close" {
 		o.Violation("mget:not-exactly-one-answer", line+" => "+result)
 		return
@@ -454,7 +491,7 @@ func checkMultiGetSpec(o *hxOut, kc string, orig string, nshards int, arr []marr
 		}
 		return
 	}
-	if !uniform || firstErr >= 0 {
+	if !uniform {
 		return
 	}
 	best := oks[0]
